@@ -215,7 +215,14 @@ impl Expr {
                         // e.g. Converter node with `<FormulaFrom>TO/(1&lt;&lt;P1)</FormulaFrom>` where `P1` points to integer node are commonplace.
                         (lhs.as_float() / rhs.as_float()).into()
                     }
-                    BinOpKind::Rem => apply_arithmetic_op!(overflowing_rem, rem),
+                    BinOpKind::Rem => {
+                        if lhs.is_integer() && rhs.is_integer() && rhs.as_integer() == 0 {
+                            return Err(GenApiError::invalid_data(
+                                "attempt to calculate the remainder with a divisor of zero".into(),
+                            ));
+                        }
+                        apply_arithmetic_op!(overflowing_rem, rem)
+                    }
                     BinOpKind::Pow => {
                         if lhs.is_integer() && rhs.is_integer() && rhs.as_integer() >= 0 {
                             lhs.as_integer()
